@@ -130,6 +130,15 @@ func interBody(r *kit.Rng, size int) []byte {
 		}
 	}
 	b := make([]byte, size)
+	if size > 2048 { // big bodies: a random 257-byte block repeated (cheap; still not periodic in any power of two)
+		blk := make([]byte, 257)
+		r.Read(blk)
+		for i := 0; i < size; i += len(blk) {
+			copy(b[i:], blk)
+		}
+		b[size-1], b[size/2] = byte(r.Pick(256)), byte(r.Pick(256))
+		return b
+	}
 	switch r.Pick(3) {
 	case 0:
 		r.Read(b)
